@@ -21,6 +21,7 @@ import (
 	"github.com/google/uuid"
 	"github.com/mr-tron/base58"
 	"github.com/nspcc-dev/bbolt"
+	"github.com/nspcc-dev/neo-go/pkg/util"
 	objectcore "github.com/nspcc-dev/neofs-node/pkg/core/object"
 	meta "github.com/nspcc-dev/neofs-node/pkg/local_object_storage/metabase"
 	"github.com/nspcc-dev/neofs-node/pkg/local_object_storage/blobstor/common"
@@ -126,14 +127,12 @@ func mkIDs(foreign bool) []oid.ID {
 func mkOwners() []user.ID {
 	var res []user.ID
 	for _, b := range []byte{0x01, 0x02, 0x00} {
-		var u user.ID
-		u[0] = 0x35
-		for i := 1; i < 21; i++ {
-			u[i] = 0x10
+		var h util.Uint160
+		for i := range h {
+			h[i] = 0x10
 		}
-		u[20] = b
-		u[21], u[22], u[23], u[24] = 0xde, 0xad, 0xbe, b
-		res = append(res, u)
+		h[19] = b
+		res = append(res, user.NewFromScriptHash(h)) // valid IDs (prefix + checksum): MergeSearchResults decodes them
 	}
 	return res
 }
@@ -365,6 +364,12 @@ func (c *corpus) genFilter(k string) filterSpec {
 		return filterSpec{K: k}
 	}
 	op := 1 + rnd.intn(8)
+	switch k {
+	case object.FilterOwnerID, object.FilterFirstSplitObject, object.FilterParentID, object.AttributeAssociatedObject, object.FilterPayloadChecksum:
+		if rnd.chance(30) {
+			op = 4 // prefix of the text form
+		}
+	}
 	vals := c.valuesOf(k)
 	var v string
 	if len(vals) > 0 && rnd.chance(80) {
